@@ -336,7 +336,7 @@ func procFailure(res *procResult) *simcheck.Violation {
 		case simrt.FailDeadlock:
 			return simcheck.V("deadlock", "%s [%s]", f.Msg, f.Gs)
 		case simrt.FailBudget:
-			return simcheck.V("no-termination", "%s", f.Msg)
+			return simcheck.V("no-termination", "%s [%s]", f.Msg, f.Gs)
 		}
 	}
 	return nil
